@@ -65,6 +65,11 @@ def sweep_cases(ctx: core.Ctx, rnd: random.Random, gens: list, repeats: int, *, 
         for fname, sname in (("sample.py", "python"), ("sample.bat", "bat"), ("sample.c", "c"), ("sample.html", "html")):
             for kind in ("code", "comment", "empty"):
                 add(fname, sname, kind, by_name["B3"], {"template": "nocon"}, "nothing-rendered:" + fname, must=False)
+    # content that keeps the linter from reading a new header - a comment with a tag inside an ignore block (taken for the
+    # existing header), a tag-like string with an unparseable expression: success may only be reported with a full read-back
+    for fname, sname in (("sample.py", "python"), ("sample.c", "c"), ("sample.html", "html")):
+        for kind in ("ignoredheader", "badexprbody"):
+            add(fname, sname, kind, by_name["B1"], {}, "linter-cannot-read-back:" + kind, must=False)
     # a forced --style on files whose header goes to a .license sibling anyway (binary content, a type that takes no comments)
     for sname in ("html", "c", "python", "tex", "haskell"):
         if sname in styles:
